@@ -125,6 +125,17 @@ CHECKS["C09"] = dict(
          "reasons; a result available before the future was started must survive a stop request; results are tracked.",
     note=MT_NOTE + " spawn_detached's terminate-on-error is not driven.")
 
+CHECKS["C06"] = dict(
+    level="exploration", design="5 C06",
+    technique="runtime monitoring under stress: per-item exactly-once counters, completion-thread identity, stop-before-start "
+              "-> done rule, conservation at context stop/destruction (lost item watchdog), FIFO rule over start/completion "
+              "sequence numbers, trampoline nesting-depth monitor, /proc thread count; ASan and TSan builds, delay injection at enqueue sites",
+    text="1-8 producers start schedule() operations in bursts with idle gaps on every context type while the context is "
+         "stopped/destroyed right after the last accepted item; each item must complete exactly once, on a context thread "
+         "(or inline for inline/trampoline), with done iff stop was requested before start, in FIFO order on single-threaded "
+         "loops; trampoline nesting never exceeds max(1, depth) and no deferred item is left when the outermost start returns.",
+    note=MT_NOTE)
+
 NOT_YET = "check not built yet (construction in progress, see DESIGN.md section 10)"
 
 
